@@ -456,9 +456,7 @@ class Models:
         must = ctx.tlc_must_pass
         self.f = {
             "proc_spec": self.ex.submit(must, "Proc", "MC_Proc_spec_%s.cfg" % tier, workers=2, coverage=True, timeout=900),
-            "proc_impl": self.ex.submit(must, "Proc", "MC_Proc_impl_%s.cfg" % tier, workers=2, timeout=900),
             "skip_spec": self.ex.submit(must, "Skip", "MC_Skip_spec_%s.cfg" % tier, workers=4, coverage=ctx.quick, timeout=1500),
-            "skip_impl": self.ex.submit(must, "Skip", "MC_Skip_impl_%s.cfg" % tier, workers=4, timeout=1500),
             "skip_live": self.ex.submit(ctx.tlc, "Skip", "MC_Skip_live.cfg", workers=1, timeout=600),
             "bounds": self.ex.submit(must, "Bounds", "MC_Bounds_%s.cfg" % tier, workers=2, coverage=ctx.quick, timeout=1500),
         }
@@ -473,11 +471,12 @@ class Models:
 def part_proc(ctx, bins, models):
     spec = models.get("proc_spec")
     ctx.check_coverage(spec)
-    impl = models.get("proc_impl")
+    # Dev_ReadErrIsEOF is switched off since /repo 0b97f88: the only configuration is the one the property demands
+    # (set the constant to TRUE in a copy of the cfg to get the shipped-before-the-fix behaviour back).
     want = {scn_key(json.loads(v)["scn"]): json.loads(v) for v in spec.vcases}
-    have = {scn_key(json.loads(v)["scn"]): json.loads(v) for v in impl.vcases}
-    if set(want) != set(have) or len(want) != len(spec.vcases):
-        raise vlib.MachineryError("Proc.tla: the two configurations do not enumerate the same scenarios")
+    have = want
+    if len(want) != len(spec.vcases):
+        raise vlib.MachineryError("Proc.tla: scenarios are not unique")
     jobs = []
     for key in sorted(want):
         scn = want[key]["scn"]
@@ -615,7 +614,6 @@ def part_skip(ctx, bins, models):
     spec = models.get("skip_spec")
     if ctx.quick:
         ctx.check_coverage(spec)
-    impl = models.get("skip_impl")
     live = models.get("skip_live")
     if live.rc != 13 or "Stuttering" not in live.out:
         raise vlib.MachineryError("Skip.tla: with the deviation on TLC must report the non-terminating attribute loop (rc=%s)" % live.rc)
@@ -623,13 +621,11 @@ def part_skip(ctx, bins, models):
     for v in spec.vcases:
         c = json.loads(v)
         want[(c["loop"], tuple(c["stream"]))] = c
+    # Dev_AttrSkipNoEOF is switched off since /repo f3e22e6: no stream is predicted to hang any more; MC_Skip_live.cfg keeps
+    # the deviation on only to show that the liveness property can fail (vacuity guard, checked above).
     hang = set()
-    for v in impl.vcases:
-        c = json.loads(v)
-        if c["got"] == "hang":
-            hang.add((c["loop"], tuple(c["stream"])))
-    if len(want) != len(spec.vcases) or not hang:
-        raise vlib.MachineryError("Skip.tla: unexpected enumeration (%d cases, %d predicted hangs)" % (len(want), len(hang)))
+    if len(want) != len(spec.vcases):
+        raise vlib.MachineryError("Skip.tla: unexpected enumeration (%d cases)" % len(want))
     jobs = []
     for key in sorted(want):
         c = want[key]
@@ -863,16 +859,19 @@ SEEDS = [
     ("union-reinit", b"union U { int a; struct { short p; char c; int a; } p; }; union U obj = {70000, .p = {1000, 1, .a = 5}};\n", []),
     ("fixed-24ff3f5-keyword-macro-twice", b"#define T int\nT a; T b;\n", []),
     ("undef-during-args", b"#define f(x) x\nf(\n#undef f\n1)\n", ["-E"]),
-    ("types-compatible-novoid", b"int v = __builtin_types_compatible_p(int, 1);\n", []),
+    ("fixed-ff1537e-types-compatible-nontype", b"int v = __builtin_types_compatible_p(int, 1);\n", []),
+    ("fixed-3a3e772-builtin-as-value", b"float x = __builtin_inff;\n", []),
+    ("fixed-3a3e772-builtin-as-statement", b"int main(void) { __builtin_expect; }\n", []),
+    ("fixed-f3e22e6-attr-eof", b"[[foo(", []),
+    ("fixed-f3e22e6-gnuattr-eof", b"__attribute__((foo(", []),
     # regression inputs of defects repaired by fix: commits in /repo (must stay quiet)
     ("fixed-4ba409c-expandfunc-uaf", b"#define f(a) a\n#define t(a) a\nt(t(f)x)\n", ["-E"]),
     ("fixed-f515711-duplicate-label", b"void f(void) { x: x: ; }\n", []),
     ("fixed-c5b7a53-bitand-pointer", b"int x[1], y = 0 & x;\n", []),
     ("fixed-060fc54-void-condition", b"int i; void p; int main(void) { if (i ? 1 : 0) p ? 1 : 0; }\n", []),
     ("fixed-d052c7b-macro-name-last-in-argument", b"#define f()\n#define m(a) a\nm(f)\n", ["-E"]),
-    # still open
-    ("nul-in-string", b"char s[] = \"ab\x00\";\n", []),
-    ("backslash-nul-escape", b"char *s = \"\\\x00\";\n", []),
+    ("fixed-0c3a06d-nul-in-string", b"char s[] = \"ab\x00\";\n", []),
+    ("fixed-6739228-backslash-nul-escape", b"char *s = \"\\\x00\";\n", []),
 ]
 
 
